@@ -36,24 +36,37 @@ ASSUMPTIONS = [
     'status mapping: a normal view turns BadCSRFToken/BadCSRFOrigin into a 400 response through the default exception '
     'response view; inside an exception view the same exception propagates out of the router',
 ]
-TRUSTED = ['hand-written model coq/Model/C12.v of csrf.py, viewderivers.csrf_view, util.is_same_domain/strings_differ/'
-           'bytes_, settings.aslist (shape-pinned)',
+TRUSTED = ['translator harness/c12/translate.py: its PRIMITIVE TABLE (which Python leaf expression / idiom / result constructor '
+           'means which primitive of coq/Model/C12.v; ~60 entries, listed in its docstring) and its mechanical statement-to-term '
+           'rules; the control flow of is_same_domain, the three storage policies, check_csrf_token, check_csrf_origin (with '
+           '_fail) and csrf_view (with its wrapper) is NOT trusted: it is regenerated into coq/Gen/Facts_C12_prog.v every run '
+           'and proved equal to the reference model',
+           'hand-written reference model coq/Model/C12.v (the theorems are about it and, through gen_*_is_model, about the '
+           'regenerated program); shape pins remain for the untranslated leaves util.bytes_/text_/strings_differ, '
+           'settings.aslist(_cronly), DefaultCSRFOptions, CookieSession.get/new_csrf_token',
            'WebOb 1.8 fragments modelled by hand: headers._trans_name, Request.host/domain/host_port, MultiDict last-value '
            'lookup (validated by correspondence only)',
-           'urllib.parse.urlsplit fragment (lstrip C0, unsafe-byte removal, scheme split, netloc split, bracket ValueErrors) '
-           'modelled by hand, constants regenerated from the running interpreter; ipaddress validity as an oracle',
+           'urllib.parse.urlsplit fragment modelled by hand (characterised by the C12_urlparse_* theorems, exhaustive '
+           'small-scope sweep in the thorough tier), constants regenerated from the running interpreter; ipaddress validity as '
+           'an oracle',
            'hmac.compare_digest modelled as byte equality; CPython UTF-8/latin-1 encoders modelled by Lib/Utf8.encode']
-TECHNIQUE = ('Coq proof on a hand-written Gallina model, parametric in the three pending repairs (regenerated facts), + '
-             'extracted-model differential correspondence through a real Configurator/router')
-LEVEL_TEXT = ('Machine-checked theorems for all configurations, requests and histories: the protected body runs iff the '
-              'declarative token and origin conditions hold (csrf_gate), rejections are BadCSRFToken/BadCSRFOrigin '
-              '(rejection_is_400), the body never runs on a failed check for any value of the repair parameters, '
-              'is_same_domain has the exact documented characterisation, the query string and earlier requests do not '
-              'influence the verdict (history_independent; view_history_independent over interleaved clients with minting storage), '
-              'the token lifecycle (minted exactly when none is held; an empty token is rejected when none is stored), the urlsplit '
-              'fragment (scheme/authority extraction for scheme://authority[/...], exact ValueError characterisation), with '
-              'refutations for the unrepaired parameter values.')
-LEVEL_NOTE = ('Trusted: Coq kernel; hand-written model (validated by correspondence, shape-pinned); WebOb/urllib fragments '
+TECHNIQUE = ('Coq proof about a Gallina program whose control flow is translated from the Python source on every run '
+             '(harness/c12/translate.py -> coq/Gen/Facts_C12_prog.v) and proved equal to a hand-written reference model that is '
+             'parametric in the three repairs (regenerated facts), + extracted-model differential correspondence through a real '
+             'non-autocommit Configurator/router (random statement order and include nesting), per-client request sequences '
+             'and an exhaustive small-scope sweep of the urlsplit fragment')
+LEVEL_TEXT = ('Machine-checked theorems for all configurations, requests and histories, stated about the program regenerated '
+              'from src/pyramid/{util,csrf,viewderivers}.py on this run (gen_view_outcome, gen_check_csrf_origin, '
+              'gen_check_csrf_token, gen_<policy>_get/new/check, gen_is_same_domain = the reference model): the protected body '
+              'runs iff the declarative token and origin conditions hold (csrf_gate), rejections are '
+              'BadCSRFToken/BadCSRFOrigin (rejection_is_400), the body never runs on a failed check for any value of the repair '
+              'parameters, is_same_domain has the exact documented characterisation, the query string, the statement order of '
+              'the configuration and earlier requests (shared trusted-origins list; interleaved clients with minting storage) '
+              'do not influence the verdict, a token is minted exactly when none is held and an empty token is rejected when '
+              'none is stored, the urlsplit fragment extracts scheme/authority of scheme://authority[/...] and raises exactly on '
+              'bad brackets; refutations for the unrepaired parameter values.')
+LEVEL_NOTE = ('Trusted: Coq kernel; the translator\'s primitive table and statement rules (fail-closed: anything outside '
+              'subset/table is a broken tie, never a guess); the leaf primitives of Model/C12.v incl. the WebOb/urllib fragments '
               'and the ipaddress oracle; Python harness. ASCII-case assumption on header names and trusted patterns.')
 ALLOWED_AXIOMS = ()
 
@@ -61,6 +74,20 @@ ALLOWED_AXIOMS = ()
 # ------------------------------------------------------------ facts
 def facts(src):
     v, summary, problems = factsx.extract(src)
+    # the control flow of the core functions, regenerated from the source (harness/c12/translate.py) into a second
+    # generated file: the program uses the primitives of Model/C12.v, which imports the constants of Facts_C12.v
+    from . import translate
+    from harness.common import build
+    try:
+        gen, tproblems, tsummary = translate.translate_tree(src)
+    except Exception as e:                                   # fail closed: stored fallback + broken tie
+        fb = translate.load_fallback()
+        gen = '\n'.join((sp['glue'] if sp.get('glue') else 'Definition %s %s :=\n  %s.\n' % (sp['gen'], sp['sig'], fb.get(sp['gen'], 'TRANSLATOR_FAILED')))
+                        for sp in translate.FUNCS)
+        tproblems, tsummary = ['translator crashed: %r' % (e,)], {}
+    build.write_if_changed(os.path.join(build.COQ, 'Gen', 'Facts_C12_prog.v'), translate.HEADER + gen)
+    problems += tproblems
+    summary.update({'translated:' + k: x for k, x in tsummary.items()})
     summary.update({k: (x if not isinstance(x, list) or len(x) < 12 else 'list of %d' % len(x)) for k, x in v.items()})
     return {'coq': factsx.emit(v), 'summary': summary, 'problems': problems}
 
